@@ -491,7 +491,7 @@ func solveLemmas(lg *Gen, recPrelude, outDir string, timeoutS int) {
 	for _, o := range lg.obls {
 		go func(o *Obligation) {
 			file := filepath.Join(outDir, sanitize(o.Name)+".smt2")
-			os.WriteFile(file, []byte("(set-logic ALL)\n"+recPrelude+"\n"+o.Formula), 0o644)
+			os.WriteFile(file, []byte("(set-logic ALL)\n"+preludeCore+preludeHeap+recPrelude+"\n"+o.Formula), 0o644)
 			ch <- res{o, discharge(file, timeoutS)}
 		}(o)
 	}
